@@ -22,7 +22,8 @@ RULE = ("lists of 1..24 contiguous addresses built to trigger chains of merges (
         "both platforms, all permutations of lists with <= 5 elements (thorough) or a few shuffles (quick); refusal cases: "
         "non-contiguous wildcard, foreign class, strings. judged = icontract evaluations; distinct non-trivial = (class, "
         "platform, n, #result, merge depth) with at least one merge or removal"
-        " Round 4: refusal inputs made of foreign elements only.")
+        " Round 4: refusal inputs made of foreign elements only."
+        " Round 5: inputs that were group references before; numbered AddressAg inputs.")
 ASSUMPTIONS = ["an IOS AddressAg list whose union is 0.0.0.0/0 raises ValueError: an IOS group cannot hold it (refusal)",
                "the result need not be minimal; the statement demands 'never more elements than the input'"]
 
